@@ -175,6 +175,24 @@ def faults(ctx):
             c2.top.b.add_op(ops.Noop(), cn.out(0))
 
         out.append(("const-port-as-wire", {"Exception"}, f7c))
+    # ---- F7b: the state-order port (offset -1) of a sibling used as a value wire
+    from hugr.hugr.node_port import OutPort as _OutPort
+
+    def _order_src(c2):
+        # a sibling with at least one value output: -1 must not be read as "the last output"
+        for n in [*reversed(c2.top.nodes), c2.top.b.input_node]:
+            try:
+                if c2.hugr.num_out_ports(n) >= 1 and n != c2.top.b.output_node:
+                    return n
+            except Exception:  # noqa: BLE001
+                continue
+        return None
+
+    if _order_src(ctx) is not None:
+        out.append(("order-port-as-wire:add_op", {"Exception"}, lambda c2: c2.top.b.add_op(ops.Noop(), _OutPort(_order_src(c2), -1))))
+        out.append(("order-port-as-wire:tuple", {"Exception"}, lambda c2: c2.top.b.add_op(ops.MakeTuple(), _OutPort(_order_src(c2), -1))))
+        if top.kind == "dfg":
+            out.append(("order-port-as-wire:set_outputs", {"Exception"}, lambda c2: c2.top.b.set_outputs(_OutPort(_order_src(c2), -1))))
     # ---- F8: integer index in an untracked builder
     out.append(("int-in-untracked-builder:add", {"ValueError"}, lambda c2: c2.top.b.add(ops.Noop()(0))))
     out.append(("int-in-untracked-builder:extend", {"ValueError"}, lambda c2: c2.top.b.extend(ops.Noop()(0))))
